@@ -17,6 +17,11 @@ ReqStep(v, t) ==
     [] v = "s1" -> [op |-> "send", t |-> t, name |-> "n1.test", qt |-> 1]
     [] v = "s1cd" -> [op |-> "send", t |-> t, name |-> "n1.test", qt |-> 1, cd |-> 1]
     [] v = "s1nord" -> [op |-> "send", t |-> t, name |-> "n1.test", qt |-> 1, nord |-> 1]
+    [] v = "s1t99" -> [op |-> "send", t |-> t, name |-> "n1.test", qt |-> 99]      \* types without a mnemonic
+    [] v = "s1t100" -> [op |-> "send", t |-> t, name |-> "n1.test", qt |-> 100]
+    [] v = "s1txt" -> [op |-> "send", t |-> t, name |-> "n1.test", qt |-> 16]
+    [] v = "s1txtch" -> [op |-> "send", t |-> t, name |-> "n1.test", qt |-> 16, qc |-> 3]   \* class CHAOS
+    [] v = "s1ch" -> [op |-> "send", t |-> t, name |-> "n1.test", qt |-> 1, qc |-> 3]
     [] v = "l1" -> [op |-> "lquery", t |-> t, name |-> "n1.test", qt |-> 1]
     [] v = "q2" -> [op |-> "query", t |-> t, name |-> "n2.test", qt |-> 1]
 
